@@ -1154,14 +1154,14 @@ func (pid *PID) Ask(ctx context.Context, to *PID, message any, timeout time.Dura
 		return result, nil
 	case <-ctx.Done():
 		err = errors.Join(ctx.Err(), gerrors.ErrRequestTimeout)
-		pid.handleReceivedErrorWithMessage(pid, message, err)
+		to.handleReceivedErrorWithMessage(pid, message, err)
 		timers.Put(timer)
 		receiveContext.responseClosed.Store(true)
 		putResponseChannel(responseCh)
 		return nil, err
 	case <-timer.C:
 		err = gerrors.ErrRequestTimeout
-		pid.handleReceivedErrorWithMessage(pid, message, err)
+		to.handleReceivedErrorWithMessage(pid, message, err)
 		timers.Put(timer)
 		receiveContext.responseClosed.Store(true)
 		putResponseChannel(responseCh)
